@@ -135,11 +135,23 @@ func safely(f func() error) (err error, panicked bool) {
 
 // tx executes one message like baseapp executes a single-message transaction:
 // ValidateBasic, then the handler on a cached context that is written back only on success.
+// simulateFirst: every message is first executed on a discarded branch (flag -sim)
+var simulateFirst bool
+
 func (e *Env) tx(vb func() error, h func(ctx sdk.Context) error) Result {
 	if vb != nil {
 		if err, _ := safely(vb); err != nil {
 			return Result{"rej", "basic: " + oneLine(err.Error())}
 		}
+	}
+	if simulateFirst {
+		// what a node does for gas estimation and in CheckTx: the message is executed on a branch of the state that
+		// is thrown away.  Nothing of that execution may be visible afterwards (C14: the outcome of a history does
+		// not depend on what else the process has executed)
+		sctx, _ := e.ctx.CacheContext()
+		nx0, nt0, no0 := len(e.xfers), len(e.trace), len(e.order)
+		_, _ = safely(func() error { return h(sctx) })
+		e.xfers, e.trace, e.order = e.xfers[:nx0], e.trace[:nt0], e.order[:no0]
 	}
 	cctx, write := e.ctx.CacheContext()
 	nx := len(e.xfers)
